@@ -53,10 +53,23 @@ func (h *hooked) Check(ent Entry, ce *CheckedEntry) *CheckedEntry {
 	// Let the wrapped Core decide whether to log this message or not. This
 	// also gives the downstream a chance to register itself directly with the
 	// CheckedEntry.
-	if downstream := h.Core.Check(ent, ce); downstream != nil {
+	//
+	// The CheckedEntry passed in may already be non-nil because another core
+	// (for example an earlier core of a tee) accepted the entry, so a non-nil
+	// result alone does not mean that the wrapped Core accepted it. The hooks
+	// run only if the wrapped Core registered itself.
+	registered := 0
+	if ce != nil {
+		registered = len(ce.cores)
+	}
+	downstream := h.Core.Check(ent, ce)
+	if downstream == nil {
+		return ce
+	}
+	if len(downstream.cores) > registered {
 		return downstream.AddCore(ent, h)
 	}
-	return ce
+	return downstream
 }
 
 func (h *hooked) With(fields []Field) Core {
